@@ -9,9 +9,14 @@ TT(d, v) == [d |-> d, v |-> v]
 \* distinct primes make path multiplicities visible; LeafKind "bc" adds a broadcast pair [2] / [1]
 MCLeafTs == IF LeafKind = "scalar" THEN <<TT(<<1>>, <<2>>), TT(<<1>>, <<3>>)>>
             ELSE <<TT(<<2>>, <<2, 5>>), TT(<<1>>, <<3>>)>>
-MCSeeds(d) == IF d = <<1>> THEN {TT(<<1>>, <<7>>)} ELSE {TT(d, [k \in 1..Len(d) |-> 7])}
+RECURSIVE LProd(_)
+LProd(d) == IF d = <<>> THEN 1 ELSE Head(d) * LProd(Tail(d))
+MCSeeds(d) == {TT(d, [k \in 1..LProd(d) |-> 5 + 2 * k])}
 
 INSTANCE AutodiffImpl WITH SAdd <- IAdd, SMul <- IMul, SNeg <- INeg, SDiv <- IDiv, SFn <- IFn,
                            SPow <- IPow, SDPow <- IDPow, SZero <- 0, SOne <- 1,
                            LeafTs <- MCLeafTs, Seeds <- MCSeeds
+\* the next-state relation restated at the root so that TLC reports one coverage count per action
+MCNext == Build \/ Freeze \/ Begin \/ Eval \/ Deliver \/ Store \/ Clear
+MCSpec == Init /\ [][MCNext]_vars
 =============================================================================
